@@ -291,7 +291,7 @@ pub fn gen_cfg_for(prop: &str, rng: &mut Rng, thorough: bool) -> GenCfg {
             cfg.p_breaks = 0.4;
             cfg.min_jobs = 8;
             // conservation is also judged under the features O1 replays only partially (times are not compared there)
-            cfg.p_clustering = 0.15;
+            cfg.p_clustering = 0.25;
             cfg.p_recharge = 0.15;
             cfg.p_required_breaks = 0.15;
         }
@@ -310,7 +310,7 @@ pub fn gen_cfg_for(prop: &str, rng: &mut Rng, thorough: bool) -> GenCfg {
 /// The C01/C02/C03 workload. Every solve is judged by O1; only issues of `prop` are reported by this run.
 pub fn run_end_to_end(run: &Run, prop: &'static str) {
     let thorough = !run.is_quick();
-    let cases: u64 = run.by_tier(if prop == "C01" { 900 } else { 400 }, 20_000);
+    let cases: u64 = run.by_tier(if prop == "C03" { 400 } else { 900 }, 20_000);
     let max_gens = run.by_tier(40usize, 200usize);
     par_for(4, cases, &|| !run.has_time(), &|i| {
         let case_seed = mix(run.seed, i);
@@ -349,6 +349,45 @@ pub fn run_end_to_end(run: &Run, prop: &'static str) {
             }
         };
         judge_case(run, prop, case_seed, &gp, &config, &shape, problem.clone(), "base");
+
+        // C02: relations (locked jobs) on top of everything else, in particular on top of vicinity clustering, whose reader
+        // must keep relation jobs out of the clusters. The relations come from a feasible solution of the same problem
+        // WITHOUT clustering (relation jobs are never clustered, so they stay consistent when clustering is switched on).
+        if prop == "C02" && !gp.has("required-breaks") && !gp.has("recharge") && rng.chance(if gp.has("clustering") { 0.8 } else { 0.25 }) && run.has_time() {
+            let mut base_gp = gp.clone();
+            if let Some(plan) = base_gp.problem["plan"].as_object_mut() {
+                plan.remove("clustering");
+            }
+            let base_problem = if gp.has("clustering") {
+                match read_problem(&base_gp) {
+                    ReadOutcome::Ok(p) => Some(p),
+                    _ => None,
+                }
+            } else {
+                Some(problem.clone())
+            };
+            let base_cfg = simple_config(rng.range_usize(5, 30), 1, 4);
+            if let Some(CaseOutcome::Done(res)) = base_problem.map(|p| solve_and_replay(p, &base_gp, &base_cfg)) {
+                if res.report.is_clean() {
+                    if let Ok(parsed) = PProblem::parse(&base_gp.problem, &base_gp.matrices) {
+                        let rels = derive_relations(&mut rng, &parsed, &res.report);
+                        if !rels.is_empty() {
+                            let mut gp2 = gp.clone();
+                            gp2.problem["plan"]["relations"] = Value::Array(rels.clone());
+                            gp2.features.insert("relations".into());
+                            for r in rels.iter() {
+                                run.observe("relation_types", r["type"].as_str().unwrap_or("?"));
+                            }
+                            match read_problem(&gp2) {
+                                ReadOutcome::Ok(p2) => judge_case(run, prop, case_seed, &gp2, &config, &shape, p2, if gp.has("clustering") { "relations+clustering" } else { "relations" }),
+                                ReadOutcome::Err(codes, text) => run.inconclusive(&format!("derived relations rejected: {codes:?} {}", clip(&text, 120))),
+                                ReadOutcome::Panic(_) => run.inconclusive("reader panic (reported by C01/C10)"),
+                            }
+                        }
+                    }
+                }
+            }
+        }
 
         // second / third phase for a share of the cases, both derived from a fresh feasible solution (C01 emphasis):
         // relations consistent with the constraints, and limits tightened until they bind
